@@ -167,6 +167,24 @@ PROPS = {
         "assumptions": ["SHA3-256 (types.NewHash) is an uninterpreted parameter H: fixed 32-byte output, collision-free on the "
                         "pre-images, data and descendant/content sources of the blocks compared"],
     },
+    "C19": {
+        "module": "ZenonVerif.Props.C19",
+        "streams": [S("wallet", 600, 30000, timeout=7200)],
+        "rule": "wallet stream: path strings (fixed malformed set, boundary segments 2^31-1/2^31/2^32-1/2^32/leading zeros/"
+                "20+ digits, random valid paths, a third of them mutated by one byte edit), DeriveForPath / DeriveWithIndex "
+                "on those with seeds of 0..128 bytes, PubKeyToAddress on 0..64-byte strings, keyStoreFromEntropy on 0..64-byte "
+                "entropies, key files for entropies of 16/20/24/28/32 bytes x 7 passwords (empty, unicode, 4 kB, binary) with "
+                "write -> read -> decrypt, wrong passwords, single-bit flips of ciphertext/nonce/salt (one complete sweep of all "
+                "bits of one file + 6 random bits per further file) and header edits; one evaluation = one call of the real "
+                "wallet code replayed through the Lean model with the primitives supplied as oracle values; distinct = "
+                "distinct (op,result) lines",
+        "partial": "'fails with any other password / after any change to ciphertext, nonce or salt' is AES-GCM authenticity "
+                   "and Argon2id behaviour: an assumption, exercised by the stream (wrong passwords, bit flips), not a theorem; "
+                   "JSON text encoding of the key file (hexutil / bech32) is exercised by the stream only; Timestamp is wall "
+                   "clock and excluded",
+        "assumptions": ["HMAC-SHA512, SHA3-256, Ed25519, Argon2id, AES-256-GCM, BIP-39 are uninterpreted parameters "
+                        "(structure Crypto) with laws open_seal, verify_sign, hmac_len, sha3_len as explicit fields"],
+    },
     "C18": {
         "module": "ZenonVerif.Props.C18",
         "streams": [S("paging", 30000, 2000000), S("rpc", 6, 300, timeout=7200), S("rpcserver", 1500, 200000)],
@@ -220,5 +238,24 @@ PROPS = {
         "assumptions": ["epoch statistics satisfy produced_i <= expected_i and sum of pillar weights <= TotalWeight",
                         "epoch windows are unix seconds with |t| <= 2^62 (int64 subtraction does not wrap)",
                         "pillar give-percentages are <= 100 (checkPillarPercentages)"],
+    },
+    "C20": {
+        "module": "ZenonVerif.Props.C20",
+        "streams": [S("genesis", 150, 5000, timeout=7200)],
+        "rule": "genesis stream: per case one random CONSISTENT configuration derived from the mock genesis (2-9 users, 2-5 tokens, "
+                "1-5 pillars, delegations, legacy entries, 0-7 fusions with distinct ids, 0-4 swap entries, optional sporks, "
+                "optional swap/token/stake contract entries), 4 permutations of every unordered list -> NewGenesis hash in process "
+                "(every 5th config also in two fresh subprocesses), 6 single-entry perturbations drawn from 25 kinds -> real "
+                "CheckGenesis (whole and validator by validator) vs model verdict, accepted configurations are started on a fresh "
+                "chain and the ledger is compared with the statement's sums, every 3rd config a LevelDB created with A is restarted "
+                "with B and with permuted A; 20 header lists per config through the real NewMomentumContent; distinct = distinct "
+                "(op,result) lines",
+        "partial": "invariance of the full genesis momentum (hash, patch of all embedded storage) under list permutation and across "
+                   "fresh processes is decided by the stream on the real code, not by a theorem (the theorems cover the two "
+                   "order-sensitive mechanisms: sorted momentum content, commuting writes to distinct keys); the contract-holding "
+                   "and supply clauses of CheckGenesis hold only under extra premises (contract has a GenesisBlocks entry; one entry "
+                   "per address) and TotalSupply <= MaxSupply is unchecked: _partial theorems + negative witnesses, known findings "
+                   "F13a/F13b/F13c/F13e (and F13d: ReadGenesisConfigFromFile returns (nil,nil) on a missing amount)",
+        "assumptions": ["SHA3 / ABI packing / LevelDB are not modelled: genesis hash equality is observed on the real code"],
     },
 }
